@@ -2,8 +2,13 @@ package props
 
 import (
 	"fmt"
+	"os"
+	"runtime/debug"
 	"sort"
+	"strings"
+	"sync"
 	"testing"
+	"unsafe"
 
 	"github.com/cloudwego/gopkg/container/strmap"
 	"github.com/cloudwego/gopkg/internal/strstore"
@@ -114,7 +119,17 @@ type smInstance struct {
 	items  func() (map[string]int, int, error) // nil if unsupported
 }
 
+// sharedBacking is one string of which many values are prefixes: such values share their start address
+// (and differ only in length), as sub-strings cut from one decoded buffer do.
+var sharedBacking = string(patternBytes(0x5a, 400))
+
 func strVal(i int) string {
+	switch i % 7 {
+	case 5:
+		return sharedBacking[:(i*31)%400]
+	case 6:
+		return sharedBacking[:(i*17)%23]
+	}
 	switch i % 5 {
 	case 0:
 		return ""
@@ -433,6 +448,8 @@ func checkStrStore(c StrMapCase, cv *cov) (v *evid.Violation) {
 			ss := ld.keys()
 			if li%2 == 1 { // also duplicates and empties are fine for a store
 				ss = append(ss, "", "", "dup", "dup")
+				// neighbours that share their start address and differ only in length, and true repeats
+				ss = append(ss, sharedBacking[:10], sharedBacking[:5], sharedBacking[:0], sharedBacking[:5], sharedBacking[:5], sharedBacking[:300], sharedBacking[1:300], sharedBacking[:299])
 			}
 			ids, err := st.Load(ss)
 			if err != nil || len(ids) != len(ss) {
@@ -645,4 +662,233 @@ func TestC07_KeyBytes(t *testing.T) {
 	}, rec)
 	rec.Sample(StrMapCase{VType: 0, Reps: 3, Loads: []SMLoad{{Fams: []KeyFam{{Kind: "raw", Raw: []evid.Hex{[]byte("Aaaaaaaa"), []byte("Bbbbbbbb")}}}}}})
 	rec.SetExhaustive()
+}
+
+// TestC07_LongHistory: one instance reloaded many times. Between two large loads with different keys lie
+// g small reloads, for every g in a range that covers 8-bit (and, in the thorough tier, 16-bit) counters
+// of loads; after every large load the whole map is compared with the Go map, after every small one its
+// own keys and some keys of the previous large load.
+func TestC07_LongHistory(t *testing.T) {
+	rec := evid.New("C07", "c07_long_history", "enumeration: for every gap g in 0..600 (thorough: also 65530..65540): on one instance per map flavour, a load of 150..260 keys, then g reloads with 1..6 keys, then a load of as many (or up to 2 fewer) other keys; every loaded key is read back and keys of earlier loads must be absent, Len and Item enumeration compared; every (flavour, g) is one evaluation; distinct by construction; non-trivial = g >= 1")
+	defer rec.Flush()
+	gaps := []int{}
+	for g := 0; g <= 600; g++ {
+		gaps = append(gaps, g)
+	}
+	if evid.Thorough() {
+		for g := 65530; g <= 65540; g++ {
+			gaps = append(gaps, g)
+		}
+	}
+	var mu sync.Mutex
+	failed := false
+	parallelFor(len(gaps)*3, func(idx int, b *evid.Batch) {
+		g, vt := gaps[idx/3], idx%3
+		mu.Lock()
+		f := failed
+		mu.Unlock()
+		if f {
+			return
+		}
+		var viol *evid.Violation
+		p, st := evid.Safe(func() { viol = longHistory(vt, g) })
+		if p != nil {
+			viol = &evid.Violation{Msg: fmt.Sprintf("panic after a history with %d small reloads between two large loads: %v", g, p), Stack: st}
+		}
+		b.Evals++
+		b.Distinct++
+		if g >= 1 {
+			b.Nontrivial++
+		}
+		b.Labels[fmt.Sprintf("vtype_%d", vt)]++
+		if viol != nil {
+			mu.Lock()
+			if !failed {
+				failed = true
+				failEnum(t, rec, "c07_long_history", LongHistCase{VType: vt, Gap: g}, viol)
+			}
+			mu.Unlock()
+		}
+	}, rec)
+	rec.Sample(LongHistCase{VType: 2, Gap: 254})
+	rec.SetExhaustive()
+}
+
+// LongHistCase is the replayable form of one long-history evaluation.
+type LongHistCase struct {
+	VType int `json:"vtype"`
+	Gap   int `json:"gap"`
+}
+
+func init() {
+	register("c07_long_history", func(c LongHistCase, cv *cov) *evid.Violation {
+		if c.Gap < 0 || c.Gap > 1<<20 || c.VType < 0 || c.VType > 2 {
+			return nil
+		}
+		var viol *evid.Violation
+		if p, st := evid.Safe(func() { viol = longHistory(c.VType, c.Gap) }); p != nil {
+			return &evid.Violation{Msg: fmt.Sprintf("panic: %v", p), Stack: st}
+		}
+		return viol
+	})
+}
+
+func longHistory(vt, g int) *evid.Violation {
+	inst := newInstance(vt)
+	bigKeys := func(round int) ([]string, []int) {
+		n := 150 + (g*7)%111 - round*(g%3) // the second large load is never larger than the first: tables can be reused
+		kk := make([]string, n)
+		vv := make([]int, n)
+		for i := range kk {
+			kk[i] = fmt.Sprintf("r%d-%d-key", round, i*3)
+			vv[i] = i + round*1000 + 1
+		}
+		return kk, vv
+	}
+	verify := func(when string, kk []string, vv []int, absent []string) *evid.Violation {
+		for i, k := range kk {
+			got, ok := inst.get(k)
+			if !ok || got != modelVal(vt, vv[i]) {
+				return evid.Failf("%s: Get(%q) = (%d,%v), want (%d,true); %d keys loaded", when, k, got, ok, modelVal(vt, vv[i]), len(kk))
+			}
+		}
+		for _, k := range absent {
+			if got, ok := inst.get(k); ok || got != 0 {
+				return evid.Failf("%s: Get(%q) = (%d,%v) for a key of an earlier load that is not in the current one", when, k, got, ok)
+			}
+		}
+		if inst.length() != len(kk) {
+			return evid.Failf("%s: Len()=%d, loaded %d", when, inst.length(), len(kk))
+		}
+		if inst.items != nil {
+			items, n, err := inst.items()
+			if err != nil || n != len(kk) || len(items) != len(kk) {
+				return evid.Failf("%s: Item enumeration: %d indices, %d distinct keys, err=%v; loaded %d", when, n, len(items), err, len(kk))
+			}
+		}
+		return nil
+	}
+	k0, v0 := bigKeys(0)
+	if err := inst.load(k0, v0, false, false); err != nil {
+		return evid.Failf("first large load failed: %v", err)
+	}
+	if v := verify("after the first large load", k0, v0, nil); v != nil {
+		return v
+	}
+	for i := 0; i < g; i++ {
+		n := 1 + i%6
+		kk := make([]string, n)
+		vv := make([]int, n)
+		for j := range kk {
+			kk[j] = fmt.Sprintf("s%d-%d", i, j)
+			vv[j] = i + j + 1
+		}
+		if err := inst.load(kk, vv, i%5 == 4, false); err != nil {
+			return evid.Failf("small reload %d failed: %v", i, err)
+		}
+		if i < 3 || i >= g-3 || i%64 == 0 {
+			if v := verify(fmt.Sprintf("after small reload %d of %d", i+1, g), kk, vv, k0[:8]); v != nil {
+				return v
+			}
+		}
+	}
+	k1, v1 := bigKeys(1)
+	if err := inst.load(k1, v1, false, false); err != nil {
+		return evid.Failf("second large load failed: %v", err)
+	}
+	return verify(fmt.Sprintf("after a large load, %d small reloads and a second large load with other keys", g), k1, v1, k0)
+}
+
+// TestC07_HugeKeys (thorough tier, and only when enough memory is available): one load whose key bytes
+// exceed 4 GiB (two keys of 2 GiB + 3 and 2 GiB + 7 bytes, each below the 4 GiB limit per key, followed by short keys), so that offsets into the key
+// storage no longer fit 32 bits.
+func TestC07_HugeKeys(t *testing.T) {
+	rec := evid.New("C07", "c07_huge_keys", "one load per map flavour {StrMap[int], Str2Str} whose first two keys have 2 GiB + 3 and 2 GiB + 7 bytes (zero bytes, never touched in the source) followed by 6 short keys incl. the empty key; every key is read back, absent probes are absent, Len and Item enumeration checked; thorough tier only, skipped (and recorded as skipped) when less than 24 GiB of memory is available; every flavour is one evaluation")
+	defer rec.Flush()
+	if !evid.Thorough() {
+		rec.Assume("not run in the quick tier (needs about 9 GiB of memory and 10..30 s)")
+		return
+	}
+	avail := int64(0)
+	if b, err := os.ReadFile("/proc/meminfo"); err == nil {
+		for _, line := range strings.Split(string(b), "\n") {
+			if strings.HasPrefix(line, "MemAvailable:") {
+				fmt.Sscanf(strings.TrimSpace(strings.TrimPrefix(line, "MemAvailable:")), "%d", &avail)
+			}
+		}
+	}
+	if avail < 24<<20 { // kB
+		rec.Assume(fmt.Sprintf("skipped: only %d MiB of memory available", avail>>10))
+		rec.Label("skipped_not_enough_memory", 1)
+		return
+	}
+	shard, _ := evid.Shard()
+	if shard != 0 {
+		return
+	}
+	const hugeLen = 2<<30 + 7
+	hb := make([]byte, hugeLen) // zero pages, not resident until written
+	huge := unsafe.String(&hb[0], len(hb))
+	// two keys of 2 GiB + 3 and 2 GiB + 7 bytes (each below the documented 4 GiB limit per key), then short keys
+	keys := []string{huge[:hugeLen-4], huge, "a", "", "bb", "key-after-4GiB", "z\x00", "a\x00"}
+	vals := []int{11, 12, 22, 33, 44, 55, 66, 77}
+	b := evid.NewBatch()
+	for _, vt := range []int{0, 2} {
+		inst := newInstance(vt)
+		var viol *evid.Violation
+		p, st := evid.Safe(func() {
+			if err := inst.load(keys, vals, false, false); err != nil {
+				viol = evid.Failf("load with a %d-byte key failed: %v", hugeLen, err)
+				return
+			}
+			for i, k := range keys {
+				got, ok := inst.get(k)
+				if !ok || got != modelVal(vt, vals[i]) {
+					name := fmt.Sprintf("%q", k)
+					if i < 2 {
+						name = fmt.Sprintf("the %d-byte key", len(k))
+					}
+					viol = evid.Failf("after a load whose key bytes exceed 4 GiB: Get(%s) = (%d,%v), want (%d,true)", name, got, ok, modelVal(vt, vals[i]))
+					return
+				}
+			}
+			for _, k := range []string{"b", "aa", "key-after-4GiB ", huge[:100], huge[:hugeLen-1]} {
+				if got, ok := inst.get(k); ok || got != 0 {
+					viol = evid.Failf("after a load whose key bytes exceed 4 GiB: Get of an absent key (%d bytes) = (%d,%v)", len(k), got, ok)
+					return
+				}
+			}
+			if inst.length() != len(keys) {
+				viol = evid.Failf("Len()=%d, loaded %d", inst.length(), len(keys))
+				return
+			}
+			if inst.items != nil {
+				items, n, err := inst.items()
+				if err != nil || n != len(keys) || len(items) != len(keys) {
+					viol = evid.Failf("Item enumeration after a load whose key bytes exceed 4 GiB: %d indices, %d distinct keys, err=%v", n, len(items), err)
+					return
+				}
+				for i, k := range keys[2:] {
+					if iv, ok := items[k]; !ok || iv != modelVal(vt, vals[i+2]) {
+						viol = evid.Failf("Item enumeration after a load whose key bytes exceed 4 GiB does not yield key %q with its value", k)
+						return
+					}
+				}
+			}
+		})
+		if p != nil {
+			viol = &evid.Violation{Msg: fmt.Sprintf("panic with key bytes beyond 4 GiB: %v", p), Stack: st}
+		}
+		b.Evals++
+		b.Distinct++
+		b.Nontrivial++
+		if viol != nil {
+			failEnum(t, rec, "c07_long_history", LongHistCase{VType: vt, Gap: -1}, viol)
+			break
+		}
+		inst = nil
+		debug.FreeOSMemory()
+	}
+	rec.Merge(b)
+	rec.Sample(map[string]interface{}{"key_bytes": []int{hugeLen - 4, hugeLen}, "other_keys": 6})
 }
